@@ -807,6 +807,8 @@ def run_property(prop, tier, seed):
         region_stage(out, "two-slots", prop, allnames, 2, 3 if q else 4, 1, 3,
                      ["push", "push_from", "reserve_regions"])
         coded_stage(out, q, seed, lambda e: e["why"] == "earlier-item-changed")
+        # long random histories: items of every bit length at every bit offset, re-read after each later push
+        huffman_random_stage(out, q, seed, lambda e: e["why"] == "earlier-item-changed", "huffman-histories")
         coded_columns_stage(out, q, seed, lambda e: e["why"] == "earlier-row-changed")
         contract_trace_stage(out, ["C02"], q, seed)
     elif prop == "C04":
@@ -846,6 +848,10 @@ def run_property(prop, tier, seed):
         # merged coded regions read back what is pushed, within their acceptance contract
         coded_stage(out, q, seed, lambda e: e["why"] in ("merge-panicked", "read-failed", "read-differs", "read-back-differs",
                                                          "push-panicked", "ambiguous-input-accepted"))
+        # generations of merges whose sources were fed in every input form (incl. read items of coded containers):
+        # the merged container must accept what its sources' statistics cover
+        huffman_random_stage(out, q, seed, lambda e: e["why"] in ("merge-panicked", "push-panicked", "read-failed", "read-differs",
+                                                                  "code-domain-differs-from-statistics"), "huffman-generations")
         coded_columns_stage(out, q, seed, lambda e: e["why"] in ("push-into-merged-panicked", "merge-panicked", "read-failed",
                                                                    "read-differs", "symbol-outside-statistics-was-stored"))
         contract_trace_stage(out, ["C10"], q, seed)
